@@ -65,7 +65,12 @@ class SphinxRenderer(DocutilsRenderer):
         """
         relative_include = self.md_env.get("relative-docs", None)
         if relative_include is not None and destination.startswith(relative_include[0]):
-            source_dir, include_dir = relative_include[1:]
+            include_dir = relative_include[2]
+            # sphinx resolves paths relative to the document being built, which is not
+            # the file holding the include directive when that file is itself included
+            source_dir = os.path.dirname(
+                self.sphinx_env.doc2path(self.sphinx_env.docname)
+            )
             destination = os.path.relpath(
                 os.path.join(include_dir, os.path.normpath(destination)), source_dir
             )
